@@ -585,6 +585,11 @@ def build(program):
     """Return a ``build(world)`` function for harness.execute."""
 
     def _b(world):
+        if "custom" in program:  # family-specific builder "module:function"
+            import importlib
+
+            modname, fname = program["custom"].split(":")
+            return getattr(importlib.import_module(modname), fname)(world, program)
         it = Interp(world, program)
         world.interp = it
         return it.main_fn()
